@@ -22,7 +22,10 @@ def run_case(kind, execmodel="thread", python=None, mode="sigkill"):
     out = {"kind": kind, "execmodel": execmodel, "mode": mode, "err": ""}
     try:
         gw = matrix.make_gateway(group, kind, execmodel, python, tag="loss")
-        ch1 = gw.remote_exec("import os\nchannel.send(os.getpid())\nchannel.send('a')\nchannel.send('b')\nchannel.receive()")
+        # a channel read through makefile("r"): two items arrive (before the pid below does, same wire), then the worker is lost
+        ch5 = gw.remote_exec("import builtins\nchannel.send('xy')\nchannel.send('z\\n')\nbuiltins._verif_c5 = 1\nchannel.receive()")
+        f5 = ch5.makefile("r")
+        ch1 = gw.remote_exec("import os, time, builtins\nwhile not hasattr(builtins, '_verif_c5'): time.sleep(0.01)\nchannel.send(os.getpid())\nchannel.send('a')\nchannel.send('b')\nchannel.receive()")
         pid = ch1.receive(20)
         got = []
         ch2 = gw.remote_exec("channel.send(1)\nchannel.receive()")
@@ -40,6 +43,13 @@ def run_case(kind, execmodel="thread", python=None, mode="sigkill"):
 
         ths = [threading.Thread(target=blocked, args=("blocked_receive", lambda: ch3.receive(30))),
                threading.Thread(target=blocked, args=("blocked_waitclose", lambda: ch4.waitclose(30)))]
+        fileres = []
+
+        def fileread():
+            fileres.append(f5.read(100))
+            fileres.append(f5.read(1))
+
+        ths.append(threading.Thread(target=blocked, args=("blocked_fileread", fileread)))
         for t in ths:
             t.start()
         for _ in range(200):  # the callback item must have arrived before the loss
@@ -55,6 +65,8 @@ def run_case(kind, execmodel="thread", python=None, mode="sigkill"):
             t.join(40)
         out.update(res)
         out["blocked_done"] = not any(t.is_alive() for t in ths)
+        out["file"] = [str(x) for x in fileres]
+        out.setdefault("blocked_fileread", "")
         items = []
         try:
             while True:
